@@ -445,7 +445,15 @@ impl Default for AggCfg {
     fn default() -> Self { AggCfg { expr: ExprCfg { ill_typed: 0, ..ExprCfg::default() }, order_insensitive_only: false, allow_having: true, allow_distinct: false, allow_limit: false } }
 }
 
+/// the column called `pref` if the schema has it, else the first column of that type (schemas of joined tables use prefixed names)
+pub fn named(s: &Schema, pref: &str, ty: &Ty) -> String {
+    if s.cols.iter().any(|(n, _)| n == pref) { return pref.to_owned(); }
+    s.cols.iter().find(|(n, t)| t == ty && n.ends_with(&format!("_{}", pref))).or_else(|| s.cols.iter().find(|(_, t)| t == ty)).map(|(n, _)| n.clone()).unwrap_or_else(|| pref.to_owned())
+}
+
 pub fn gen_aggregate(rng: &mut Rng, s: &Schema, cfg: &AggCfg) -> Sel {
+    let (ck, cg, ci) = (named(s, "k", &Ty::Text), named(s, "g", &Ty::Int), named(s, "i", &Ty::Int));
+    let (ck, cg, ci) = (ck.as_str(), cg.as_str(), ci.as_str());
     let mut sel = Sel { from: s.table.clone(), ..Default::default() };
     // group keys: columns or small expressions
     let mut keys: Vec<E> = Vec::new();
@@ -453,9 +461,9 @@ pub fn gen_aggregate(rng: &mut Rng, s: &Schema, cfg: &AggCfg) -> Sel {
         let nk = 1 + rng.below(2);
         for _ in 0..nk {
             let k = match rng.below(6) {
-                0 | 1 => col("k"), 2 | 3 => col("g"),
-                4 => { let c = &s.cols[rng.below(s.cols.len())]; if matches!(c.1, Ty::Arr(_)) { col("g") } else { col(&c.0) } }
-                _ => bin("*", col("g"), int(2)),
+                0 | 1 => col(ck), 2 | 3 => col(cg),
+                4 => { let c = &s.cols[rng.below(s.cols.len())]; if matches!(c.1, Ty::Arr(_)) { col(cg) } else { col(&c.0) } }
+                _ => bin("*", col(cg), int(2)),
             };
             if !keys.contains(&k) { keys.push(k); }
         }
@@ -478,13 +486,13 @@ pub fn gen_aggregate(rng: &mut Rng, s: &Schema, cfg: &AggCfg) -> Sel {
     if cfg.allow_having && rng.chance(1, 3) {
         let hagg = match rng.below(4) {
             0 => E::Agg("count".into(), false, vec![E::Star]),
-            1 => E::Agg("sum".into(), false, vec![col("i")]),
-            2 => E::Agg("max".into(), false, vec![col("i")]),
+            1 => E::Agg("sum".into(), false, vec![col(ci)]),
+            2 => E::Agg("max".into(), false, vec![col(ci)]),
             _ => E::Agg("count".into(), false, vec![col(&s.cols[rng.below(s.cols.len())].0)]),
         };
         let cmp = bin(*rng.pick(&[">", ">=", "<", "=", "!="]), hagg, int(rng.range(0, 6)));
         sel.having = Some(if !keys.is_empty() && matches!(keys[0], E::Col(_)) && rng.chance(1, 3) {
-            let keycond = match &keys[0] { E::Col(n) if n == "k" => bin("!=", keys[0].clone(), text("a")), _ => bin(">=", keys[0].clone(), int(1)) };
+            let keycond = match &keys[0] { E::Col(n) if n == ck => bin("!=", keys[0].clone(), text("a")), E::Col(n) if n == cg => bin(">=", keys[0].clone(), int(1)), _ => E::Is(true, b(keys[0].clone()), b(E::Null)) };
             bin(*rng.pick(&["AND", "OR"]), cmp, keycond)
         } else { cmp });
     }
